@@ -935,13 +935,13 @@ func (pc *PeerConnection) CreateAnswer(options *AnswerOptions) (SessionDescripti
 			connectionRole = connectionRoleFromDtlsRole(DTLSRoleClient)
 		default:
 			connectionRole = connectionRoleFromDtlsRole(defaultDtlsRoleAnswer)
-		}
 
-		// If one of the agents is lite and the other one is not, the lite agent must be the controlled agent.
-		// If both or neither agents are lite the offering agent is controlling.
-		// RFC 8445 S6.1.1
-		if isIceLiteSet(remoteDesc.parsed) && !pc.api.settingEngine.candidates.ICELite {
-			connectionRole = connectionRoleFromDtlsRole(DTLSRoleServer)
+			// The offer leaves the choice to us (actpass). We are the controlling ICE agent against a
+			// lite offerer (RFC 8445 S6.1.1) and DTLSTransport.role() then acts as DTLS server, so
+			// answer passive. An explicit a=setup in the offer (handled above) always wins: RFC 4145 S4.1.
+			if isIceLiteSet(remoteDesc.parsed) && !pc.api.settingEngine.candidates.ICELite {
+				connectionRole = connectionRoleFromDtlsRole(DTLSRoleServer)
+			}
 		}
 	}
 	pc.mu.Lock()
